@@ -288,3 +288,387 @@ Proof.
       left. apply (IN (nv - 2) (c - 1)); [lia|lia|]. unfold tricell. cbv zeta. rewrite dedges_app. apply in_app_iff. right.
       replace (c - 1 <? nu - 1) with true by lia. replace (nv - 2 + 1) with (nv - 1) by lia. lsimpl. right. left. f_equal; lia.
 Qed.
+
+(* ------------------------------------------------------------------ vertex umbrellas *)
+Require Import MV.C14.ProofsFan.
+
+Lemma tri_links nu nv u v n p : 2 <= nu -> 2 <= nv ->
+  In (n, p) (links (unit_triangle_faces nu nv u) v) <->
+  exists j i, 0 <= j < nv - 1 /\ 0 <= i < rlen nu j /\
+    let kpt := roff nu j + i in let knx := roff nu (j + 1) + i in
+    ((i < j /\ i < nu - 1) /\ ((v = kpt /\ n = knx + 1 /\ p = kpt + 1) \/ (v = knx + 1 /\ n = kpt + 1 /\ p = kpt) \/ (v = kpt + 1 /\ n = kpt /\ p = knx + 1)))
+    \/ (i < nu - 1 /\ ((v = kpt /\ n = knx /\ p = knx + 1) \/ (v = knx /\ n = knx + 1 /\ p = kpt) \/ (v = knx + 1 /\ n = kpt /\ p = knx))).
+Proof.
+  intros Hu Hv. rewrite links_In. split.
+  - intros [f [Hf H]]. apply tri_faces_In in Hf as [j [i [Hj [Hi Hf]]]]; try lia. exists j, i. split; auto. split; auto.
+    cbv zeta. unfold tricell in Hf. cbv zeta in Hf. apply in_app_iff in Hf as [Hf|Hf].
+    + destruct ((i <? j) && (i <? nu - 1)) eqn:C; [|destruct Hf]. destruct Hf as [<-|[]]. left. split; [lia|].
+      apply tri_corner. exact H.
+    + destruct (i <? nu - 1) eqn:C; [|destruct Hf]. destruct Hf as [<-|[]]. right. split; [lia|].
+      apply tri_corner. exact H.
+  - intros [j [i [Hj [Hi H]]]]. cbv zeta in H. destruct H as [[C H]|[C H]].
+    + exists [roff nu j + i; roff nu (j + 1) + i + 1; roff nu j + i + 1]. split; [|apply tri_corner; exact H].
+      apply tri_faces_In; try lia. exists j, i. split; auto. split; auto. unfold tricell. cbv zeta. apply in_app_iff. left.
+      replace ((i <? j) && (i <? nu - 1)) with true by lia. left. reflexivity.
+    + exists [roff nu j + i; roff nu (j + 1) + i; roff nu (j + 1) + i + 1]. split; [|apply tri_corner; exact H].
+      apply tri_faces_In; try lia. exists j, i. split; auto. split; auto. unfold tricell. cbv zeta. apply in_app_iff. right.
+      replace (i <? nu - 1) with true by lia. left. reflexivity.
+Qed.
+
+(* the (up to) six corners at vertex (r, c), in rotational order *)
+Definition tid (nu r c : Z) : Z := roff nu r + c.
+Definition tE1 nu nv r c := if (r <? nv - 1) && (c <? r) && (c <? nu - 1) then [(tid nu (r + 1) (c + 1), tid nu r (c + 1))] else [].
+Definition tE2 nu (nv : Z) r c := if (c <? r) && (c <? nu - 1) then [(tid nu r (c + 1), tid nu (r - 1) c)] else [].
+Definition tE3 nu (nv : Z) r c := if (0 <? c) && (c <? r) then [(tid nu (r - 1) c, tid nu (r - 1) (c - 1))] else [].
+Definition tE4 nu (nv : Z) (r : Z) c := if 0 <? c then [(tid nu (r - 1) (c - 1), tid nu r (c - 1))] else [].
+Definition tE5 nu nv r c := if (r <? nv - 1) && (0 <? c) then [(tid nu r (c - 1), tid nu (r + 1) c)] else [].
+Definition tE6 nu nv r c := if (r <? nv - 1) && (c <? nu - 1) then [(tid nu (r + 1) c, tid nu (r + 1) (c + 1))] else [].
+
+Lemma tri_links_cells nu nv u r c x : 2 <= nu -> 2 <= nv -> 0 <= r < nv -> 0 <= c < rlen nu r ->
+  In x (links (unit_triangle_faces nu nv u) (tid nu r c)) <->
+  In x (tE1 nu nv r c ++ tE2 nu nv r c ++ tE3 nu nv r c ++ tE4 nu nv r c ++ tE5 nu nv r c ++ tE6 nu nv r c).
+Proof.
+  intros Hu Hv Hr Hc. destruct x as [n p]. rewrite tri_links by lia. rewrite !in_app_iff. unfold tid. split.
+  - intros [j [i [Hj [Hi H]]]]. cbv zeta in H. unfold rlen in *.
+    pose proof (roff_succ nu j ltac:(lia) ltac:(lia)) as S1. unfold rlen in S1.
+    destruct H as [[C H]|[C H]]; split_or H; destruct H as [E [-> ->]].
+    + (* A(j,i) first corner: (r,c) = (j,i) *)
+      apply roff_inj in E; unfold rlen; try lia. destruct E as [-> ->]. left. unfold tE1.
+      replace ((j <? nv - 1) && (i <? j) && (i <? nu - 1)) with true by lia. left. unfold tid. f_equal; lia.
+    + (* A(j,i) second corner: (r,c) = (j+1,i+1) *)
+      replace (roff nu (j + 1) + i + 1) with (roff nu (j + 1) + (i + 1)) in E by lia.
+      apply roff_inj in E; unfold rlen; try lia. destruct E as [-> ->]. right. right. left. unfold tE3.
+      replace ((0 <? i + 1) && (i + 1 <? j + 1)) with true by lia. left. unfold tid.
+      replace (j + 1 - 1) with j by lia. replace (i + 1 - 1) with i by lia. f_equal; lia.
+    + (* A(j,i) third corner: (r,c) = (j,i+1) *)
+      replace (roff nu j + i + 1) with (roff nu j + (i + 1)) in E by lia.
+      apply roff_inj in E; unfold rlen; try lia. destruct E as [-> ->]. right. right. right. right. left. unfold tE5.
+      replace ((j <? nv - 1) && (0 <? i + 1)) with true by lia. left. unfold tid.
+      replace (i + 1 - 1) with i by lia. f_equal; lia.
+    + (* B(j,i) first corner *)
+      apply roff_inj in E; unfold rlen; try lia. destruct E as [-> ->]. right. right. right. right. right. unfold tE6.
+      replace ((j <? nv - 1) && (i <? nu - 1)) with true by lia. left. unfold tid. f_equal; lia.
+    + (* B(j,i) second corner: (r,c) = (j+1,i) *)
+      apply roff_inj in E; unfold rlen; try lia. destruct E as [-> ->]. right. left. unfold tE2.
+      replace ((i <? j + 1) && (i <? nu - 1)) with true by lia. left. unfold tid.
+      replace (j + 1 - 1) with j by lia. f_equal; lia.
+    + (* B(j,i) third corner: (r,c) = (j+1,i+1) *)
+      replace (roff nu (j + 1) + i + 1) with (roff nu (j + 1) + (i + 1)) in E by lia.
+      apply roff_inj in E; unfold rlen; try lia. destruct E as [-> ->]. right. right. right. left. unfold tE4.
+      replace (0 <? i + 1) with true by lia. left. unfold tid.
+      replace (j + 1 - 1) with j by lia. replace (i + 1 - 1) with i by lia. f_equal; lia.
+  - unfold tE1, tE2, tE3, tE4, tE5, tE6, tid, rlen in *. intros H. cbv zeta.
+    destruct H as [H|[H|[H|[H|[H|H]]]]].
+    + destruct ((r <? nv - 1) && (c <? r) && (c <? nu - 1)) eqn:C; [|destruct H]. destruct H as [H|[]]. pinj H. subst.
+      exists r, c. split; [lia|]. split; [lia|]. left. split; [lia|]. left. lia.
+    + destruct ((c <? r) && (c <? nu - 1)) eqn:C; [|destruct H]. destruct H as [H|[]]. pinj H. subst.
+      exists (r - 1), c. split; [lia|]. split; [lia|]. right. split; [lia|]. replace (r - 1 + 1) with r by lia. right. left. lia.
+    + destruct ((0 <? c) && (c <? r)) eqn:C; [|destruct H]. destruct H as [H|[]]. pinj H. subst.
+      exists (r - 1), (c - 1). split; [lia|]. split; [lia|]. left. split; [lia|]. replace (r - 1 + 1) with r by lia. right. left. lia.
+    + destruct (0 <? c) eqn:C; [|destruct H]. destruct H as [H|[]]. pinj H. subst.
+      exists (r - 1), (c - 1). split; [lia|]. split; [lia|]. right. split; [lia|]. replace (r - 1 + 1) with r by lia. right. right. lia.
+    + destruct ((r <? nv - 1) && (0 <? c)) eqn:C; [|destruct H]. destruct H as [H|[]]. pinj H. subst.
+      exists r, (c - 1). split; [lia|]. split; [lia|]. left. split; [lia|]. right. right. lia.
+    + destruct ((r <? nv - 1) && (c <? nu - 1)) eqn:C; [|destruct H]. destruct H as [H|[]]. pinj H. subst.
+      exists r, c. split; [lia|]. split; [lia|]. right. split; [lia|]. left. lia.
+Qed.
+
+Definition tri_ring nu nv r c : list (Z * Z) :=
+  if 0 <? c then
+    (if (r <? nv - 1) && (c <? r) && (c <? nu - 1)
+     then tE1 nu nv r c ++ tE2 nu nv r c ++ tE3 nu nv r c ++ tE4 nu nv r c ++ tE5 nu nv r c ++ tE6 nu nv r c
+     else tE2 nu nv r c ++ tE3 nu nv r c ++ tE4 nu nv r c ++ tE5 nu nv r c ++ tE6 nu nv r c)
+  else tE6 nu nv r c ++ tE1 nu nv r c ++ tE2 nu nv r c.
+
+Lemma tri_vertex_manifold nu nv u : 2 <= nu -> 2 <= nv ->
+  vertex_manifold (unit_triangle_nverts nu nv u) (unit_triangle_faces nu nv u).
+Proof.
+  intros Hu Hv. rewrite tri_nverts by lia. intros v Hv'.
+  assert (Hrow : exists r c, 0 <= r < nv /\ 0 <= c < rlen nu r /\ v = tid nu r c).
+  { assert (G : forall n, 0 <= n -> forall w, 0 <= w < roff nu n -> exists r c, 0 <= r < n /\ 0 <= c < rlen nu r /\ w = roff nu r + c).
+    { intros n Hn. pattern n. apply natlike_ind; [ | | exact Hn].
+      - intros w Hw. rewrite roff_0 in Hw by lia. lia.
+      - intros x Hx IH w Hw. unfold Z.succ in *. rewrite roff_succ in Hw by lia.
+        destruct (Z_lt_le_dec w (roff nu x)) as [L|L].
+        + destruct (IH w ltac:(lia)) as [r [c [Hr [Hc E]]]]. exists r, c. split; [lia|]. auto.
+        + exists x, (w - roff nu x). split; [lia|]. split; [lia|]. lia. }
+    apply (G nv); lia. }
+  destruct Hrow as [r [c [Hr [Hc ->]]]].
+  apply (one_fan_intro _ _ (tri_ring nu nv r c)); [apply tri_oriented_manifold; auto | | |].
+  - (* no corner twice: the `next` vertices are pairwise distinct *)
+    pose proof (roff_succ nu r ltac:(lia) ltac:(lia)) as S1.
+    assert (S0 : 1 <= r -> roff nu r = roff nu (r - 1) + rlen nu (r - 1))
+      by (intros; replace r with (r - 1 + 1) at 1 by lia; apply roff_succ; lia).
+    unfold tri_ring, tE1, tE2, tE3, tE4, tE5, tE6, tid, rlen in *.
+    destruct (0 <? c) eqn:C0, (r <? nv - 1) eqn:Ca, (c <? r) eqn:Cd, (c <? nu - 1) eqn:Ce; cbn [andb app];
+      try (specialize (S0 ltac:(lia)));
+      repeat constructor; cbn [In]; intros Hin; split_or Hin; pinj Hin; lia.
+  - intros x. rewrite tri_links_cells by lia. unfold tri_ring, tE1, tE2, tE3, tE4, tE5, tE6.
+    destruct (0 <? c) eqn:C0, (r <? nv - 1) eqn:Ca, (c <? r) eqn:Cd, (c <? nu - 1) eqn:Ce; cbn [andb];
+      rewrite !in_app_iff; cbn [In]; tauto.
+  - pose proof (roff_succ nu r ltac:(lia) ltac:(lia)) as S1.
+    unfold tri_ring, tE1, tE2, tE3, tE4, tE5, tE6, tid, rlen in *.
+    destruct (0 <? c) eqn:C0, (r <? nv - 1) eqn:Ca, (c <? r) eqn:Cd, (c <? nu - 1) eqn:Ce; cbn [andb app chained fst snd];
+      repeat split; try lia.
+Qed.
+
+(* ------------------------------------------------------------------ number of faces *)
+Lemma zsum_indicator m n : 0 <= m -> 0 <= n -> zsum (fun i => if i <? m then 1 else 0) n = Z.min m n.
+Proof.
+  intros Hm Hn. pattern n. apply natlike_ind; [ | | exact Hn].
+  - rewrite zsum_0. lia.
+  - intros x Hx IH. unfold Z.succ. rewrite zsum_succ, IH by lia. destruct (x <? m) eqn:E; lia.
+Qed.
+Lemma zsum_add f g n : zsum (fun i => f i + g i) n = zsum f n + zsum g n.
+Proof.
+  destruct (Z_lt_le_dec n 0) as [L|L].
+  - unfold zsum. replace (Z.to_nat n) with O by lia. reflexivity.
+  - pattern n. apply natlike_ind; [reflexivity | | exact L].
+    intros x Hx IH. unfold Z.succ. rewrite !zsum_succ, IH by lia. lia.
+Qed.
+
+Definition tri_nfaces (nu nv : Z) : Z := zsum (fun j => Z.min j (nu - 1) + Z.min (j + 1) (nu - 1)) (nv - 1).
+
+Lemma tri_row_faces nu nv j : 2 <= nu -> 0 <= j < nv - 1 ->
+  zlen (flat_map (fun i => tricell nu j i) (ztake_while (fun i => negb ((j <? i) || (j =? nv - 1))) (zrange nu))) =
+  Z.min j (nu - 1) + Z.min (j + 1) (nu - 1).
+Proof.
+  intros Hu Hj.
+  rewrite (ztake_while_zrange_prefix _ nu (rlen nu j)); unfold rlen; try lia.
+  rewrite zlen_flat_map_zrange.
+  rewrite (zsum_ext _ (fun i => (if i <? Z.min j (nu - 1) then 1 else 0) + (if i <? nu - 1 then 1 else 0))).
+  - rewrite zsum_add, !zsum_indicator by lia. lia.
+  - intros i Hi. unfold tricell. cbv zeta. rewrite zlen_app.
+    destruct ((i <? j) && (i <? nu - 1)) eqn:C1, (i <? nu - 1) eqn:C2, (i <? Z.min j (nu - 1)) eqn:C3; try lia; reflexivity.
+Qed.
+
+Lemma tri_nfaces_eq nu nv u : 2 <= nu -> 2 <= nv -> zlen (unit_triangle_faces nu nv u) = tri_nfaces nu nv.
+Proof.
+  intros Hu Hv. unfold unit_triangle_faces.
+  change (zlen (flat_map (fun j => flat_map (fun i => tricell nu j i)
+              (ztake_while (fun i => negb ((j <? i) || (j =? nv - 1))) (zrange nu))) (zrange nv)) = tri_nfaces nu nv).
+  rewrite zlen_flat_map_zrange. replace nv with (nv - 1 + 1) at 1 by lia. rewrite zsum_succ by lia.
+  unfold tri_nfaces.
+  rewrite (zsum_ext _ (fun j => Z.min j (nu - 1) + Z.min (j + 1) (nu - 1)) (nv - 1)) by (intros j Hj; apply tri_row_faces; lia).
+  (* the last row produces no face *)
+  replace (ztake_while (fun i => negb ((nv - 1 <? i) || (nv - 1 =? nv - 1))) (zrange nu)) with (@nil Z).
+  - cbn [flat_map]. change (zlen (@nil (list Z))) with 0. lia.
+  - symmetry. rewrite (zrange_cons nu) by lia. cbn [ztake_while]. rewrite Z.eqb_refl, orb_true_r. reflexivity.
+Qed.
+
+(* 2 V - F - (border length) = 2, i.e. Euler characteristic 1 once the border length is known *)
+Lemma tri_count_identity nu nv : 2 <= nu -> 1 <= nv ->
+  2 * roff nu nv - tri_nfaces nu nv - (2 * (nv - 1) + (Z.min nv nu - 1)) = 2.
+Proof.
+  intros Hu Hv. replace nv with (nv - 1 + 1) by lia. assert (H0 : 0 <= nv - 1) by lia. revert H0. generalize (nv - 1). clear nv Hv.
+  intros n Hn. pattern n. apply natlike_ind; [ | | exact Hn].
+  - unfold tri_nfaces. replace (0 + 1 - 1) with 0 by lia. rewrite zsum_0. rewrite roff_succ, roff_0 by lia. unfold rlen. lia.
+  - intros x Hx IH. unfold Z.succ. unfold tri_nfaces in *.
+    replace (x + 1 + 1 - 1) with (x + 1) by lia. replace (x + 1 - 1) with x in IH by lia.
+    rewrite zsum_succ by lia. rewrite (roff_succ nu (x + 1)) by lia. unfold rlen. lia.
+Qed.
+
+(* ------------------------------------------------------------------ the border is one cycle: left side down, bottom row, right side up *)
+Lemma tid_inj nu r c r' c' : 1 <= nu -> 0 <= r -> 0 <= r' -> 0 <= c < rlen nu r -> 0 <= c' < rlen nu r' ->
+  tid nu r c = tid nu r' c' -> r = r' /\ c = c'.
+Proof. unfold tid. intros. apply (roff_inj nu); auto. Qed.
+
+Lemma tricell_edges nu j i e : In e (dedges (tricell nu j i)) ->
+  (i < j /\ i < nu - 1 /\ (e = (tid nu j i, tid nu (j + 1) (i + 1)) \/ e = (tid nu (j + 1) (i + 1), tid nu j (i + 1)) \/ e = (tid nu j (i + 1), tid nu j i)))
+  \/ (i < nu - 1 /\ (e = (tid nu j i, tid nu (j + 1) i) \/ e = (tid nu (j + 1) i, tid nu (j + 1) (i + 1)) \/ e = (tid nu (j + 1) (i + 1), tid nu j i))).
+Proof.
+  unfold tricell, tid. cbv zeta. rewrite dedges_app, in_app_iff. intros [H|H].
+  - destruct ((i <? j) && (i <? nu - 1)) eqn:C; [|destruct H]. left. split; [lia|]. split; [lia|].
+    lsimpl_in H. split_or H; subst e; [left | right; left | right; right]; f_equal; lia.
+  - destruct (i <? nu - 1) eqn:C; [|destruct H]. right. split; [lia|].
+    lsimpl_in H. split_or H; subst e; [left | right; left | right; right]; f_equal; lia.
+Qed.
+
+Lemma tricell_has_A nu j i : i < j -> i < nu - 1 ->
+  In (tid nu j i, tid nu (j + 1) (i + 1)) (dedges (tricell nu j i)) /\
+  In (tid nu (j + 1) (i + 1), tid nu j (i + 1)) (dedges (tricell nu j i)) /\
+  In (tid nu j (i + 1), tid nu j i) (dedges (tricell nu j i)).
+Proof.
+  intros H1 H2. unfold tricell, tid. cbv zeta. rewrite dedges_app.
+  replace ((i <? j) && (i <? nu - 1)) with true by lia. repeat split; apply in_app_iff; left; lsimpl;
+    [left | right; left | right; right; left]; f_equal; lia.
+Qed.
+Lemma tricell_has_B nu j i : i < nu - 1 ->
+  In (tid nu j i, tid nu (j + 1) i) (dedges (tricell nu j i)) /\
+  In (tid nu (j + 1) i, tid nu (j + 1) (i + 1)) (dedges (tricell nu j i)) /\
+  In (tid nu (j + 1) (i + 1), tid nu j i) (dedges (tricell nu j i)).
+Proof.
+  intros H2. unfold tricell, tid. cbv zeta. rewrite dedges_app.
+  replace (i <? nu - 1) with true by lia. repeat split; apply in_app_iff; right; lsimpl;
+    [left | right; left | right; right; left]; f_equal; lia.
+Qed.
+
+Inductive tperim (nu nv : Z) : Z * Z -> Prop :=
+| tp_left : forall s, 0 <= s < nv - 1 -> tperim nu nv (tid nu s 0, tid nu (s + 1) 0)
+| tp_bottom : forall s, 0 <= s < Z.min nv nu - 1 -> tperim nu nv (tid nu (nv - 1) s, tid nu (nv - 1) (s + 1))
+| tp_up : forall r, 0 <= r < nv - 1 -> tperim nu nv (tid nu (r + 1) (Z.min (r + 1) (nu - 1)), tid nu r (Z.min r (nu - 1))).
+
+Lemma tri_edge_twin_or_perim nu nv u e : 2 <= nu -> 2 <= nv ->
+  In e (dedges (unit_triangle_faces nu nv u)) ->
+  In (swap e) (dedges (unit_triangle_faces nu nv u)) \/ tperim nu nv e.
+Proof.
+  intros Hu Hv H. apply tri_dedge_In in H as [j [i [Hj [Hi H]]]]; try lia. unfold rlen in Hi.
+  assert (IN : forall j' i' x, 0 <= j' < nv - 1 -> 0 <= i' < Z.min (j' + 1) nu -> In x (dedges (tricell nu j' i')) ->
+                In x (dedges (unit_triangle_faces nu nv u))).
+  { intros j' i' x Hj' Hi' Hx. apply tri_dedge_In; try lia. exists j', i'. unfold rlen. auto. }
+  apply tricell_edges in H. destruct H as [[C1 [C2 H]]|[C2 H]]; destruct H as [-> | [-> | ->]]; unfold swap; cbn [fst snd].
+  - (* A1: twin is the diagonal of the lower triangle of the same cell *)
+    left. apply (IN j i); [lia|lia|]. apply tricell_has_B; lia.
+  - (* A2 (j+1,i+1) -> (j,i+1): twin is the left side of cell (j, i+1), unless that column is the cut one *)
+    destruct (Z_lt_le_dec (i + 1) (nu - 1)) as [L|L].
+    + left. apply (IN j (i + 1)); [lia|lia|]. apply tricell_has_B; lia.
+    + right. replace (i + 1) with (Z.min (j + 1) (nu - 1)) at 1 by lia. replace (i + 1) with (Z.min j (nu - 1)) by lia.
+      apply tp_up. lia.
+  - (* A3: twin is the bottom side of the cell above *)
+    left. apply (IN (j - 1) i); [lia|lia|]. pose proof (tricell_has_B nu (j - 1) i ltac:(lia)) as T.
+    replace (j - 1 + 1) with j in T by lia. apply T.
+  - (* B1 (j,i) -> (j+1,i): twin is in cell (j, i-1), unless i = 0 *)
+    destruct (Z.eq_dec i 0) as [->|I0].
+    + right. apply tp_left. lia.
+    + left. apply (IN j (i - 1)); [lia|lia|]. pose proof (tricell_has_A nu j (i - 1) ltac:(lia) ltac:(lia)) as T.
+      replace (i - 1 + 1) with i in T by lia. apply T.
+  - (* B2 (j+1,i) -> (j+1,i+1): twin is in the cell below, unless this is the last row *)
+    destruct (Z.eq_dec (j + 1) (nv - 1)) as [E|NE].
+    + right. rewrite E. apply tp_bottom. lia.
+    + left. apply (IN (j + 1) i); [lia|lia|]. apply tricell_has_A; lia.
+  - (* B3 (j+1,i+1) -> (j,i): twin is the upper triangle of the same cell, unless i = j (hypotenuse) *)
+    destruct (Z.eq_dec i j) as [->|NE].
+    + right. replace (j + 1) with (Z.min (j + 1) (nu - 1)) at 2 by lia. replace j with (Z.min j (nu - 1)) at 4 by lia.
+      apply tp_up. lia.
+    + left. apply (IN j i); [lia|lia|]. apply tricell_has_A; lia.
+Qed.
+
+Lemma tperim_is_border nu nv u e : 2 <= nu -> 2 <= nv -> tperim nu nv e ->
+  is_border (unit_triangle_faces nu nv u) e.
+Proof.
+  intros Hu Hv H.
+  assert (IN : forall j' i' x, 0 <= j' < nv - 1 -> 0 <= i' < Z.min (j' + 1) nu -> In x (dedges (tricell nu j' i')) ->
+                In x (dedges (unit_triangle_faces nu nv u))).
+  { intros j' i' x Hj' Hi' Hx. apply tri_dedge_In; try lia. exists j', i'. unfold rlen. auto. }
+  split.
+  - destruct H as [s Hs|s Hs|r Hr].
+    + apply (IN s 0); [lia|lia|]. apply tricell_has_B; lia.
+    + apply (IN (nv - 2) s); [lia|lia|]. pose proof (tricell_has_B nu (nv - 2) s ltac:(lia)) as T.
+      replace (nv - 2 + 1) with (nv - 1) in T by lia. apply T.
+    + destruct (Z_lt_le_dec (r + 1) nu) as [L|L].
+      * (* on the hypotenuse: (r+1,r+1) -> (r,r) closes the lower triangle of cell (r,r) *)
+        rewrite (Z.min_l (r + 1)), (Z.min_l r) by lia. apply (IN r r); [lia|lia|]. apply tricell_has_B; lia.
+      * (* on the cut column: (r+1,nu-1) -> (r,nu-1) is a side of the upper triangle of cell (r,nu-2) *)
+        rewrite (Z.min_r (r + 1)), (Z.min_r r) by lia. apply (IN r (nu - 2)); [lia|lia|].
+        pose proof (tricell_has_A nu r (nu - 2) ltac:(lia) ltac:(lia)) as T. replace (nu - 2 + 1) with (nu - 1) in T by lia. apply T.
+  - intros Hin. apply tri_dedge_In in Hin as [j [i [Hj [Hi Hin]]]]; try lia. unfold rlen in Hi.
+    apply tricell_edges in Hin.
+    assert (TI : forall a b a' b', 0 <= a -> 0 <= a' -> 0 <= b < Z.min (a + 1) nu -> 0 <= b' < Z.min (a' + 1) nu ->
+                 tid nu a b = tid nu a' b' -> a = a' /\ b = b').
+    { intros. apply (tid_inj nu); unfold rlen; auto; lia. }
+    destruct H as [s Hs|s Hs|r Hr]; unfold swap in Hin; cbn [fst snd] in Hin;
+      destruct Hin as [[C1 [C2 Hin]]|[C2 Hin]]; destruct Hin as [Hin|[Hin|Hin]]; pinj Hin;
+      apply TI in E; try lia; apply TI in E0; try lia.
+Qed.
+
+Definition tpos (nu nv t : Z) : Z :=
+  let w := Z.min nv nu in
+  if t <? nv - 1 then tid nu t 0
+  else if t <? nv - 1 + (w - 1) then tid nu (nv - 1) (t - (nv - 1))
+  else let r := nv - 1 - (t - (nv - 1) - (w - 1)) in tid nu r (Z.min r (nu - 1)).
+Definition tper (nu nv : Z) : Z := 2 * (nv - 1) + (Z.min nv nu - 1).
+
+Lemma tpos_edge nu nv t : 2 <= nu -> 2 <= nv -> 0 <= t < tper nu nv ->
+  tperim nu nv (tpos nu nv t, tpos nu nv ((t + 1) mod tper nu nv)).
+Proof.
+  intros Hu Hv Ht. unfold tper in *.
+  destruct (mod_succ_cases t _ Ht) as [[E L]|[E L]]; rewrite E; unfold tpos; cbv zeta.
+  - destruct (t <? nv - 1) eqn:C1.
+    + destruct (t + 1 <? nv - 1) eqn:C2; [apply tp_left; lia|].
+      replace (t + 1 <? nv - 1 + (Z.min nv nu - 1)) with true by lia.
+      replace (t + 1 - (nv - 1)) with 0 by lia. replace (nv - 1) with (t + 1) at 1 by lia. apply tp_left. lia.
+    + replace (t + 1 <? nv - 1) with false by lia. destruct (t <? nv - 1 + (Z.min nv nu - 1)) eqn:C2.
+      * destruct (t + 1 <? nv - 1 + (Z.min nv nu - 1)) eqn:C3.
+        -- replace (t + 1 - (nv - 1)) with (t - (nv - 1) + 1) by lia. apply tp_bottom. lia.
+        -- replace (nv - 1 - (t + 1 - (nv - 1) - (Z.min nv nu - 1))) with (nv - 1) by lia.
+           replace (Z.min (nv - 1) (nu - 1)) with (t - (nv - 1) + 1) by lia. apply tp_bottom. lia.
+      * replace (t + 1 <? nv - 1 + (Z.min nv nu - 1)) with false by lia.
+        set (r := nv - 1 - (t + 1 - (nv - 1) - (Z.min nv nu - 1))).
+        replace (nv - 1 - (t - (nv - 1) - (Z.min nv nu - 1))) with (r + 1) by (subst r; lia).
+        apply tp_up. subst r. lia.
+  - (* the last edge returns to vertex 0 *)
+    replace (t <? nv - 1) with false by lia. replace (t <? nv - 1 + (Z.min nv nu - 1)) with false by lia.
+    replace (0 <? nv - 1) with true by lia.
+    replace (nv - 1 - (t - (nv - 1) - (Z.min nv nu - 1))) with (0 + 1) by lia.
+    replace (tid nu 0 0) with (tid nu 0 (Z.min 0 (nu - 1))) by (f_equal; lia). apply tp_up. lia.
+Qed.
+
+Lemma tperim_fst_inj nu nv e1 e2 : 2 <= nu -> 2 <= nv -> tperim nu nv e1 -> tperim nu nv e2 -> fst e1 = fst e2 -> e1 = e2.
+Proof.
+  intros Hu Hv H1 H2.
+  assert (TI : forall a b a' b', 0 <= a -> 0 <= a' -> 0 <= b < Z.min (a + 1) nu -> 0 <= b' < Z.min (a' + 1) nu ->
+               tid nu a b = tid nu a' b' -> a = a' /\ b = b').
+  { intros. apply (tid_inj nu); unfold rlen; auto; lia. }
+  destruct H1 as [s Hs|s Hs|r Hr], H2 as [s' Hs'|s' Hs'|r' Hr']; cbn [fst]; intros E; apply TI in E; try lia;
+    destruct E as [E1 E2]; try (exfalso; lia); try (replace s' with s by lia; reflexivity);
+    try (replace r' with r by lia; reflexivity).
+Qed.
+
+Lemma tpos_inj nu nv s t : 2 <= nu -> 2 <= nv -> 0 <= s < tper nu nv -> 0 <= t < tper nu nv ->
+  tpos nu nv s = tpos nu nv t -> s = t.
+Proof.
+  intros Hu Hv Hs Ht. unfold tper in *. unfold tpos. cbv zeta.
+  assert (TI : forall a b a' b', 0 <= a -> 0 <= a' -> 0 <= b < Z.min (a + 1) nu -> 0 <= b' < Z.min (a' + 1) nu ->
+               tid nu a b = tid nu a' b' -> a = a' /\ b = b').
+  { intros. apply (tid_inj nu); unfold rlen; auto; lia. }
+  destruct (s <? nv - 1) eqn:A1; [|destruct (s <? nv - 1 + (Z.min nv nu - 1)) eqn:A2];
+  (destruct (t <? nv - 1) eqn:B1; [|destruct (t <? nv - 1 + (Z.min nv nu - 1)) eqn:B2]);
+  intros E; apply TI in E; lia.
+Qed.
+
+Lemma tperim_has_pos nu nv e : 2 <= nu -> 2 <= nv -> tperim nu nv e ->
+  exists t, 0 <= t < tper nu nv /\ e = (tpos nu nv t, tpos nu nv ((t + 1) mod tper nu nv)).
+Proof.
+  intros Hu Hv H.
+  assert (P : forall t, 0 <= t < tper nu nv -> fst e = tpos nu nv t ->
+              e = (tpos nu nv t, tpos nu nv ((t + 1) mod tper nu nv))).
+  { intros t Ht Hf. apply (tperim_fst_inj nu nv); auto. apply tpos_edge; auto. }
+  destruct H as [s Hs|s Hs|r Hr]; unfold tper in *.
+  - exists s. split; [lia|]. apply P; [lia|]. unfold tpos. cbv zeta. cbn [fst]. replace (s <? nv - 1) with true by lia. reflexivity.
+  - exists (nv - 1 + s). split; [lia|]. apply P; [lia|]. unfold tpos. cbv zeta. cbn [fst].
+    replace (nv - 1 + s <? nv - 1) with false by lia. replace (nv - 1 + s <? nv - 1 + (Z.min nv nu - 1)) with true by lia.
+    f_equal. lia.
+  - exists (nv - 1 + (Z.min nv nu - 1) + (nv - 2 - r)). split; [lia|]. apply P; [lia|]. unfold tpos. cbv zeta. cbn [fst].
+    replace (nv - 1 + (Z.min nv nu - 1) + (nv - 2 - r) <? nv - 1) with false by lia.
+    replace (nv - 1 + (Z.min nv nu - 1) + (nv - 2 - r) <? nv - 1 + (Z.min nv nu - 1)) with false by lia.
+    replace (nv - 1 - (nv - 1 + (Z.min nv nu - 1) + (nv - 2 - r) - (nv - 1) - (Z.min nv nu - 1))) with (r + 1) by lia. reflexivity.
+Qed.
+
+Definition tri_border_cycle (nu nv : Z) : list Z := map (tpos nu nv) (zrange (tper nu nv)).
+
+Lemma tri_border nu nv u : 2 <= nu -> 2 <= nv ->
+  border_is_cycle (unit_triangle_faces nu nv u) (tri_border_cycle nu nv).
+Proof.
+  intros Hu Hv. apply border_cycle_by_positions.
+  - unfold tper; lia.
+  - intros a b Ha Hb E. apply (tpos_inj nu nv); auto.
+  - intros k Hk. apply tperim_is_border; auto. apply tpos_edge; auto.
+  - intros e He. destruct (tri_edge_twin_or_perim nu nv u e Hu Hv He) as [H|H]; [left; auto|right].
+    apply tperim_has_pos; auto.
+Qed.
+
+Lemma tri_euler nu nv u : 2 <= nu -> 2 <= nv ->
+  euler (unit_triangle_nverts nu nv u) (unit_triangle_faces nu nv u) = 1.
+Proof.
+  intros Hu Hv. unfold euler.
+  pose proof (euler_formula _ (tri_oriented_manifold nu nv u Hu Hv) (tri_faces_simple nu nv u Hu Hv)) as HE.
+  rewrite (border_length _ _ (tri_oriented_manifold nu nv u Hu Hv) (tri_border nu nv u Hu Hv)) in HE.
+  2:{ unfold tri_border_cycle. rewrite map_length, zrange_length. unfold tper. lia. }
+  unfold tri_border_cycle in HE. rewrite zlen_map, zlen_zrange in HE by (unfold tper; lia).
+  rewrite (zlen_dedges_const _ 3) in HE.
+  2:{ intros f Hf. apply tri_faces_In in Hf as [j [i [_ [_ Hf]]]]; try lia.
+      unfold tricell in Hf. cbv zeta in Hf. apply in_app_iff in Hf as [Hf|Hf];
+        [destruct ((i <? j) && (i <? nu - 1)) | destruct (i <? nu - 1)]; cbn [In] in Hf; split_or Hf; subst f; reflexivity. }
+  rewrite tri_nverts by lia. rewrite tri_nfaces_eq in * by lia.
+  pose proof (tri_count_identity nu nv ltac:(lia) ltac:(lia)). unfold tper in HE. lia.
+Qed.
